@@ -334,3 +334,19 @@ def utf8_text(c, n):
     v, used = c.call(_asn1._read_asn1_utf8_string, enc)
     c.check(all_of([v == text, used == len(enc)]), "utf8 text: read back")
     return used
+
+
+TEXTS = ["e\u0301", "A\u030a", "\u212b", "\u2126", "\uf900", "\u1100\u1161\u11a8", "a\u0323\u0307", "\ufb01", "\u00e9", "\u1e9b\u0323", "\u0130", "\u00df", "\U0001f468\u200d\U0001f469"]
+
+
+@harness(P, per_job=True, params=[dict(i=i) for i in range(len(TEXTS))],
+         bounds="13 listed texts that are NOT in Unicode normalisation form C or that change under case mapping / compatibility mapping (combining sequences, singletons, Hangul jamo, "
+         "ligatures, a ZWJ sequence): the UTF8String content is the UTF-8 of exactly the code points given, and reads back as the same string", outside="other texts",
+         must_reach=("listed text: written and read back code point for code point",))
+def text_list(c, i):
+    text = TEXTS[i]
+    content = text.encode("utf-8")
+    enc = c.call(_asn1._pack_asn1_utf8_string, text)
+    v, used = c.call(_asn1._read_asn1_utf8_string, enc)
+    c.check(all_of([refs.cat(enc) == refs.der_tlv(0, False, 12, content), v == text, used == len(enc)]), "listed text: written and read back code point for code point")
+    return used
